@@ -36,6 +36,10 @@ def particle_xsd(p, tns, top=False) -> str:
         if p.get("ref"):
             return f'<xs:element ref="{"t:" if tns != NONE else ""}{p["name"]}"{_occ(p)}/>'
         nil = ' nillable="true"' if p.get("nillable") else ""
+        if p["tp"] == "IntsAnon":
+            # an anonymous simple type given inline: a length-restricted anonymous list
+            return (f'<xs:element name="{p["name"]}"{_occ(p)}{nil}><xs:simpleType><xs:restriction><xs:simpleType><xs:list itemType="xs:int"/></xs:simpleType>'
+                    '<xs:maxLength value="3"/></xs:restriction></xs:simpleType></xs:element>')
         return f'<xs:element name="{p["name"]}" type="{_t(p["tp"], tns)}"{_occ(p)}{nil}/>'
     tag = {"seq": "sequence", "choice": "choice", "all": "all"}[p["k"]]
     return f"<xs:{tag}{_occ(p)}>" + "".join(particle_xsd(i, tns) for i in p["items"]) + f"</xs:{tag}>"
@@ -126,7 +130,7 @@ def vs(tp: str, text: str):
             return ("bool", t in ("true", "1"))
         if tp == "decimal":
             return ("dec", Decimal(t))
-        if tp == "Ints":
+        if tp in ("Ints", "IntsAnon"):
             return ("ints", tuple(int(x) for x in t.split()))
         if tp == "IntOrStr":
             try:
